@@ -234,6 +234,8 @@ def run(fx, tier):
     # acknowledgements of inbound messages are never held back by the Receive Maximum quota
     from c07 import throttled_flag_owner_rule
     throttled_flag_owner_rule(fx, v, 'C04')
+    from c13 import session_flags_rule
+    session_flags_rule(fx, v, 'C04')
     reconnect_discards_buffer_rule(fx, v, 'C04')
     # a PUBREL judged inadmissible is answered with DISCONNECT instead of PUBCOMP (shared with C20)
     from c20 import table_rows_rule
